@@ -14,6 +14,7 @@ import (
 	"fmt"
 	"math/rand"
 	"runtime/debug"
+	"strings"
 	"sync"
 	"testing"
 
@@ -21,7 +22,29 @@ import (
 	"verif.local/kit"
 )
 
-func c04PanicSite() string { return kit.PanicSite(string(debug.Stack())) }
+// c04PanicSite returns the easegress frame of the ROOT panic: when a deferred function
+// (ServerPool.collectMetrics) panics again while the first panic unwinds, the stack shows
+// several panic markers and the deepest one is the cause.
+func c04PanicSite() string {
+	lines := strings.Split(string(debug.Stack()), "\n")
+	site, armed := "unknown", false
+	for i := 0; i+1 < len(lines); i++ {
+		l := lines[i]
+		if strings.HasPrefix(l, "panic(") || strings.HasPrefix(l, "runtime.panic") || strings.HasPrefix(l, "runtime.goPanic") || strings.HasPrefix(l, "runtime.sigpanic") {
+			armed = true
+			continue
+		}
+		if armed && strings.HasPrefix(l, "github.com/megaease/easegress/") && !strings.Contains(lines[i+1], "zz_verif") {
+			fn := l
+			if j := strings.LastIndex(fn, "("); j > 0 {
+				fn = fn[:j]
+			}
+			site = strings.TrimPrefix(fn, "github.com/megaease/easegress/")
+			armed = false
+		}
+	}
+	return site
+}
 
 var c04Policies = []string{"", LoadBalancePolicyRoundRobin, LoadBalancePolicyRandom, LoadBalancePolicyWeightedRandom, LoadBalancePolicyIPHash, LoadBalancePolicyHeaderHash}
 var c04WeightKinds = []string{"none", "equal", "mixed", "somezero", "allzero"}
@@ -88,7 +111,7 @@ func TestVerif_C04_Direct(t *testing.T) {
 	r.Assume("server identity is the *Server pointer of the list handed to NewLoadBalancer; equal key = same client IP (whatever the port / presentation) resp. same header value; weights are within the schema range 0..100")
 
 	combos := len(c04Policies) * 7 * len(c04WeightKinds)
-	total := r.N(combos*10, combos*200)
+	total := r.N(combos*15, combos*200)
 	draws := r.N(3000, 10000)
 
 	for i := 0; i < total; i++ {
@@ -136,11 +159,13 @@ func TestVerif_C04_Direct(t *testing.T) {
 		}
 		base := fmt.Sprintf("%s/n%d/%s/%s", c04PolicyName(pol), n, wk, acc)
 		// Panic signature: policy + weight-vector shape (+ empty list) — the kind of input.
-		shape := wk
+		shape := "positive-total-weight"
 		if n == 0 {
-			shape = "empty"
+			shape = "empty-list"
+		} else if c04Total(dc.Servers) == 0 {
+			shape = "zero-total-weight"
 		}
-		gsig := fmt.Sprintf("C04:direct:%s:%s-weights:%s", c04PolicyName(pol), shape, acc)
+		gsig := fmt.Sprintf("C04:direct:%s:%s:%s", c04PolicyName(pol), shape, acc)
 
 		index := map[*Server]int{}
 		for j, s := range servers {
@@ -328,7 +353,7 @@ func TestVerif_C04_Direct(t *testing.T) {
 				}
 				r.Eval(nd)
 			}) {
-				if dc.Accepted && wk == "allzero" || wk == "none" {
+				if shape == "zero-total-weight" {
 					r.Count("weightedRandom_zero_total_panics", 1)
 				}
 				continue
